@@ -288,38 +288,77 @@ def run(chk, repo, tier):
     disjoint_rules(chk, repo)
 
 
+def _list_version_of(v, target):
+    """v denotes the list `target` after an in-place extension (x += y / x.extend(y) leave the same object)"""
+    a = v.single_atom() if isinstance(v, Poly) else None
+    if a is None and isinstance(v, Poly) and isinstance(target, Poly) and target.single_atom() is not None:
+        # `x += y` on lists is modelled as x + y: the extended list contains the old one as a summand
+        ta = target.single_atom()
+        return any(m == ((ta, 1),) and c == 1 for m, c in v.terms)
+    for _ in range(4):
+        if a is None:
+            return False
+        if Poly.atom(a) == target:
+            return True
+        if is_app(a) and (a[1].startswith('mut:') or a[1] in ('iadd', 'augadd', 'add_inplace')) and a[2] and isinstance(a[2][0], Poly):
+            a = a[2][0].single_atom()
+            continue
+        return False
+    return False
+
+
 def disjoint_rules(chk, repo):
     """reduce / _disjoint: every (transitively) overlapping group is merged (C06-f; reused by C03-c, C07-a)."""
     # ---------------------------------------------------------------- C06-f
     fd = repo.func('field._disjoint')
     _, paths, _ = analyse(repo, fd)
     rets = returns(paths)
-    inloop = [p for p in rets if any(is_app(a, 'call:extent.intersect') for c, pol, _ in p.conds for a in nf.value_atoms(c))]
+    def intersect_truth(p):
+        """effective truth of the intersect(...) test on path p (through not / and / or), None if not tested"""
+        from ..interp import _literals
+        lits = []
+        for c, pol, _ in p.conds:
+            _literals(c, pol, lits)
+        for c, pol in lits:
+            a = c.single_atom() if isinstance(c, Poly) else None
+            if a is not None and is_app(a, 'call:extent.intersect'):
+                return pol
+        return None
+    inloop = [p for p in rets if intersect_truth(p) is True]
     final = [p for p in rets if p not in inloop]
     ok_rec = bool(inloop) and all(isinstance(p.ret, Poly) and p.ret.single_atom() is not None and
-                                  is_app(p.ret.single_atom(), 'call:field._disjoint') and
-                                  all(pol for c, pol, _ in p.conds) for p in inloop)
+                                  is_app(p.ret.single_atom(), 'call:field._disjoint') for p in inloop)
     chk.ob('C06-f', 'structural', fd.key, 'an intersecting pair is merged and the scan restarts', ok_rec,
            'return inside the pair loop is the recursive call guarded by intersect(...)' if ok_rec else
            'the pair loop does not restart after merging an intersecting pair', fd.loc())
     # the merged group's extent must be recomputed from the group *after* the new members joined it
-    ok_ord, n_ord = True, 0
+    ok_ord, n_ord, det_ord = True, 0, ''
     for p in inloop:
-        ext = [i for i, e in enumerate(p.events) if e.kind == 'write' and e.data.get('how') == 'method:extend']
-        bnd = [i for i, e in enumerate(p.events) if e.kind == 'call' and e.data.get('callee') == 'field.boundary']
-        st = [i for i, e in enumerate(p.events) if e.kind == 'write' and e.data.get('how') == 'setitem'
+        n_pre = 0
+        for lp in p.state.loops:
+            n_pre = max(n_pre, 0)
+        evs = p.events
+        ext = [i for i, e in enumerate(evs) if e.kind == 'write' and (e.data.get('how') == 'method:extend' or
+                                                                     (e.data.get('how') == 'augassign' and e.data.get('op') == 'add'))]
+        bnd = [i for i, e in enumerate(evs) if e.kind == 'call' and e.data.get('callee') == 'field.boundary']
+        st = [i for i, e in enumerate(evs) if e.kind == 'write' and e.data.get('how') == 'setitem'
               and e.data.get('key') == nf.Const('extent')]
         n_ord += 1
         good = len(ext) == 1 and len(bnd) == 1 and len(st) == 1 and ext[0] < bnd[0] < st[0]
         if good:
-            e_ext, e_b, e_st = p.events[ext[0]], p.events[bnd[0]], p.events[st[0]]
-            good = e_b.bound.get('fields') == e_ext.target and e_st.data.get('value') == e_b.data.get('result')
+            e_ext, e_b, e_st = evs[ext[0]], evs[bnd[0]], evs[st[0]]
+            arg = e_b.bound.get('fields')
+            same_list = arg == e_ext.target or _list_version_of(arg, e_ext.target)
+            good = same_list and e_st.data.get('value') == e_b.data.get('result')
+            if not good:
+                det_ord = f'boundary({fmt(arg)[:80]}) after extending {fmt(e_ext.target)[:80]}'
+        else:
+            det_ord = f'{len(ext)} group extension(s), {len(bnd)} boundary call(s), {len(st)} extent store(s) on the merging path'
         ok_ord = ok_ord and good
     chk.ob('C06-f', 'D-order', fd.key, 'group extent = boundary(group) computed after the group was extended', ok_ord and n_ord > 0,
-           'the extent of a merged group is not the bounding box of all its members', fd.loc())
-    ok_fin = len(final) == 1 and root_sym(final[0].ret) == 'fields' or \
-        (len(final) == 1 and isinstance(final[0].ret, Poly) and final[0].ret.single_atom() is not None
-         and final[0].ret.single_atom()[0] in ('loop', 'sym'))
+           det_ord or 'the extent of a merged group is not the bounding box of all its members', fd.loc())
+    ok_fin = bool(final) and all(root_sym(p.ret) == 'fields' or (isinstance(p.ret, Poly) and p.ret.single_atom() is not None
+                                                               and p.ret.single_atom()[0] in ('loop', 'sym')) for p in final)
     chk.ob('C06-f', 'structural', fd.key, 'returns only after a full scan without intersection', ok_fin,
            '' if ok_fin else f'{len(final)} non-recursive exits', fd.loc())
     fr = repo.func('field.reduce')
